@@ -1,6 +1,7 @@
 import Mutagen.Model.IgnoreMutagen
 import Mutagen.Proofs.IgnoreMutagen
 import Mutagen.Proofs.ScanIgnore
+import Mutagen.Proofs.GlobSpec
 /-!
 # C14 — Mutagen-style ignores: last match wins, ignored directories are pruned
 
@@ -202,6 +203,31 @@ theorem scan_vcs_noPhantom (gm : Str → Str → Bool) (ig : Ignorer) (children 
   | some r =>
     simp only [Option.getD_some]
     exact vcs_never_continues (ig.ignoreWith gm) (fun p d => ignore_never_continues gm ig p d) p d r hv
+
+/-! ## The reference glob matcher (`Model/Glob.gmatch`, the specification
+`doublestar.Match` is tested against) -/
+
+/-- Literals: a pattern without `*`, `?`, `[` matches exactly the equal name. -/
+theorem glob_literal (p n : Str) (h : p.all Mutagen.Proofs.GlobSpec.plain = true) :
+    gmatch p n = decide (p = n) :=
+  Mutagen.Proofs.GlobSpec.gmatch_literal p n h
+
+/-- `*`, `?` and character classes never match the separator: a pattern without
+a slash (other than the lone `**`) matches slash-free names only — so on deeper
+paths a slash-free pattern can only match through the final component
+(`leaf_pattern_matches_base`). -/
+theorem glob_slash_free_single_component (p n : Str) (hp : '/' ∉ p) (hds : p ≠ ['*', '*'])
+    (h : gmatch p n = true) : '/' ∉ n :=
+  Mutagen.Proofs.GlobSpec.gmatch_slash_free p n hp hds h
+
+/-- `**` spans directory levels: `**/x` matches `x` at any depth, `a/**` matches
+everything beneath `a` and `a` itself, `a/**/b` matches across levels. -/
+theorem glob_doublestar_examples :
+    gmatch "**/x".toList "x".toList = true ∧ gmatch "**/x".toList "a/b/x".toList = true ∧
+    gmatch "a/**".toList "a".toList = true ∧ gmatch "a/**".toList "a/b/c".toList = true ∧
+    gmatch "a/**/b".toList "a/b".toList = true ∧ gmatch "a/**/b".toList "a/x/y/b".toList = true ∧
+    gmatch "a/*/b".toList "a/x/y/b".toList = false ∧ gmatch "*".toList "a/b".toList = false := by
+  decide
 
 /-- Non-vacuity of the loop theorem: three patterns, the middle one negated,
 all matching — the last one wins. -/
